@@ -12,6 +12,7 @@ import SfntV.Proofs.SubsetGsub
 import SfntV.Proofs.SubsetCff
 import SfntV.Proofs.SubsetOrder
 import SfntV.Proofs.SubsetWritable
+import SfntV.Proofs.SubsetCodecs
 
 namespace SfntV.Props.C10
 open SfntV SfntV.Subset
@@ -501,22 +502,40 @@ theorem C10_writable_coverage {f : Font} {glyphs : List Gid} {o : Order} {sub : 
   simp only [look, this, Option.getD_some]
   exact hi
 
-/-- CFF built-in encoding: the writer's contiguity condition (cff/encoding.go) holds for the subset
-whenever the retained encoded glyphs come first, i.e. whenever every position between 1 and the
-position of an encoded glyph holds an encoded glyph.  (Otherwise it fails: known finding
-C10-cff-encoding-order, witness `C10_writable_encoding_witness`.) -/
-theorem C10_writable_encoding {f : Font} {glyphs : List Gid} {o : Order} {sub : Sub}
+/-- The retained encoded glyphs come first: every position between 1 and the position of an encoded
+glyph holds an encoded glyph (hypothesis of `C10_writable_encoding` / `C10_writable`). -/
+def EncodedFirst (e : List Gid) (order : List Gid) : Prop :=
+  ∀ (n m : Nat) (old : Gid), 1 ≤ n → n ≤ m → order[m]? = some old → old ∈ e →
+    ∃ old', order[n]? = some old' ∧ old' ∈ e
+
+/-- Under `EncodedFirst` the glyph ids used by the subset's encoding are downward closed. -/
+theorem C10_encoding_downward {f : Font} {glyphs : List Gid} {o : Order} {sub : Sub}
     (hnd : glyphs.Nodup) (hp : ∀ k x, (o.rules k x).Perm x)
     (h : subset f glyphs o = .ok sub) (hk : f.isCFF = true)
-    (e : List Gid) (he : f.encoding = some e)
-    (hfirst : ∀ (n m : Nat) (old : Gid), 1 ≤ n → n ≤ m → sub.order[m]? = some old → old ∈ e →
-      ∃ old', sub.order[n]? = some old' ∧ old' ∈ e) :
-    ∃ e', sub.encoding = some e' ∧ encodingContiguous e' = true := by
-  have hnodup := (C10_positions hnd hp h).2.1
+    (e : List Gid) (he : f.encoding = some e) (hfirst : EncodedFirst e sub.order) :
+    ∃ e', sub.encoding = some e' ∧ e'.length = e.length ∧
+      (∀ g ∈ e', g < sub.glyphs.length ∨ g = 0) ∧
+      ∀ (n m : Nat), 1 ≤ n → n ≤ m → m ∈ e' → m ≠ 0 → n ∈ e' := by
+  have hpos := C10_positions hnd hp h
+  have hnodup := hpos.2.1
   obtain ⟨e', he', hlen, hm⟩ := (C10_cff_cid_encoding hnd hp h hk).2.2.2 e he
-  refine ⟨e', he', encodingContiguous_of_downward e' ?_⟩
+  refine ⟨e', he', hlen, ?_, ?_⟩
+  · intro g hg
+    obtain ⟨code, hcode⟩ := List.mem_iff_getElem?.1 hg
+    have hclt : code < e.length := by
+      rw [← hlen]
+      rcases Nat.lt_or_ge code e'.length with h | h
+      · exact h
+      · rw [List.getElem?_eq_none h] at hcode; cases hcode
+    rcases hm code _ (List.getElem?_eq_getElem hclt) with ⟨n', ho, hn'⟩ | ⟨_, hz⟩
+    · left
+      rw [hcode] at hn'; injection hn' with hn'; subst hn'
+      rw [hpos.2.2.2.1]
+      rcases Nat.lt_or_ge g sub.order.length with h | h
+      · exact h
+      · rw [List.getElem?_eq_none h] at ho; cases ho
+    · right; rw [hcode] at hz; injection hz
   intro n m h1 h2 hmem hm0
-  -- `m` is the new index of an encoded glyph
   obtain ⟨code, hcode⟩ := List.mem_iff_getElem?.1 hmem
   have hclt : code < e.length := by
     rw [← hlen]
@@ -529,13 +548,167 @@ theorem C10_writable_encoding {f : Font} {glyphs : List Gid} {o : Order} {sub : 
     · rw [hcode] at hn'; injection hn' with hn'; subst hn'; exact ho
     · rw [hcode] at hz; injection hz with hz; exact absurd hz hm0
   obtain ⟨old', ho', hin⟩ := hfirst n m _ h1 h2 hold (List.getElem_mem hclt)
-  -- so position `n` holds an encoded glyph, and the encoding sends its code to `n`
   obtain ⟨code', hcode'⟩ := List.mem_iff_getElem?.1 hin
   rcases hm code' old' hcode' with ⟨n', ho, hn'⟩ | ⟨hnot, _⟩
   · have : n' = n := nodup_getElem?_inj hnodup ho ho'
     subst this
     exact List.mem_of_getElem? hn'
   · exact absurd (List.mem_of_getElem? ho') hnot
+
+/-- CFF built-in encoding: the writer's contiguity condition (cff/encoding.go) holds for the subset
+whenever the retained encoded glyphs come first (`EncodedFirst`).  (Otherwise it fails: known
+finding C10-cff-encoding-order, witness `C10_writable_encoding_witness`.) -/
+theorem C10_writable_encoding {f : Font} {glyphs : List Gid} {o : Order} {sub : Sub}
+    (hnd : glyphs.Nodup) (hp : ∀ k x, (o.rules k x).Perm x)
+    (h : subset f glyphs o = .ok sub) (hk : f.isCFF = true)
+    (e : List Gid) (he : f.encoding = some e) (hfirst : EncodedFirst e sub.order) :
+    ∃ e', sub.encoding = some e' ∧ encodingContiguous e' = true := by
+  obtain ⟨e', he', _, _, hd⟩ := C10_encoding_downward hnd hp h hk e he hfirst
+  exact ⟨e', he', encodingContiguous_of_downward e' hd⟩
+
+/-! ### `C10_writable`: the subset lies in the domains of the other areas' codec theorems -/
+
+/-- What the codec theorems of C08 / C09b / C13 require of the ORIGINAL font (it is a font the
+library can write): fewer than 65536 glyphs; coverage keys distinct (they are keys of Go maps);
+GPOS value records well-typed (`vr adj` is the pair of records of adjustment `adj`) and fewer than
+65536 pairs per first glyph; cmap codes distinct and 32-bit; the built-in encoding has 256 entries.
+The requested glyph list is non-empty and duplicate-free. -/
+structure Dom (f : Font) (glyphs : List Gid) (vr : Nat → Otl.Gpos.VR × Otl.Gpos.VR) : Prop where
+  nodup : glyphs.Nodup
+  nonempty : glyphs ≠ []
+  glyphCount : f.glyphs.length ≤ 65536
+  gsubWF : ∀ l, f.gsub = some l → ∀ subs ∈ l.lookups, ∀ t ∈ subs, GsubSubWF t
+  vrOk : ∀ a, Otl.Gpos.VROk (vr a).1 ∧ Otl.Gpos.VROk (vr a).2
+  gposSets : ∀ l, f.gpos = some l → ∀ subs ∈ l.lookups, ∀ ps ∈ subs,
+    ∀ x, (leftSet ps x).length < 65536
+  cmapWF : ∀ t, f.cmaps = some t → ∀ kc ∈ t,
+    (kc.2.map (·.1)).Nodup ∧ ∀ e ∈ kc.2, e.1 < 4294967296
+  encLen : ∀ e, f.encoding = some e → e.length = 256
+
+/-- the hypotheses of `C13_encoding_roundtrip` that concern the encoding vector -/
+structure EncDomC13 (enc : List Nat) (nGlyphs : Nat) : Prop where
+  len : enc.length = 256
+  inRange : ∀ g ∈ enc, g < nGlyphs
+  contig : ∀ g ∈ enc, ∀ g', 0 < g' → g' < g → g' ∈ enc
+
+/-- Conjunction of the other areas' domain predicates for every table `Subset` rebuilds:
+* every rebuilt GSUB subtable (1.1 → 1.2, 4.1), entries in coverage-index order, satisfies the
+  hypotheses of `C08_st_roundtrip_gsub1_2` / `C08_st_roundtrip_gsub4_1` (`Cov.Valid`, one
+  substitute / ligature set per covered glyph, 16-bit glyph ids, `Gsub.LigOk`);
+* every rebuilt GPOS 2.1 subtable satisfies the content hypotheses of `C08_st_roundtrip_gpos2_1`
+  (16-bit first and second glyphs — so the coverage the encoder sorts is `Cov.Valid` —,
+  `Gpos.PairSetOk`, fewer than 65536 pairs per first glyph);
+* every rebuilt cmap subtable, as the sorted entry list, is a `Map32` (verbatim the predicate `C09b.Map32`, domain of `C09_fmt12`,
+  `C09_fmt12_lib`; for format 4, `C09_fmt4` needs no more than 16-bit glyph ids);
+* the CFF built-in encoding satisfies the vector hypotheses of `C13_encoding_roundtrip`. -/
+structure WritableByCodecs (vr : Nat → Otl.Gpos.VR × Otl.Gpos.VR) (sub : Sub) : Prop where
+  glyphs : 1 ≤ sub.glyphs.length ∧ sub.glyphs.length ≤ 65536
+  gsub : ∀ l, sub.gsub = some l → ∀ subs ∈ l.lookups, ∀ t ∈ subs, GsubDomC08 t
+  gpos : ∀ l, sub.gpos = some l → ∀ subs ∈ l.lookups, ∀ ps ∈ subs, GposDomC08 vr ps
+  cmap : ∀ t, sub.cmaps = some t → ∀ kc ∈ t, Map32 (sortKeys kc.2)
+  enc : ∀ e, sub.encoding = some e → EncDomC13 e sub.glyphs.length
+
+/-- `C10_writable`: on the domain, and — for a simple CFF font with a built-in encoding — when the
+retained encoded glyphs come first (exactly the hypothesis that excludes the known finding
+C10-cff-encoding-order), every table the subsetter rebuilds lies in the domain of the codec
+theorems of C08, C09b and C13, for every iteration order.  So those theorems apply to the subset:
+each rebuilt GSUB / GPOS subtable round-trips through the modelled encoder and reader or is refused
+with the size panic that exists in the code (`6 + 2n`, `lig41Total`, a pair-set offset > 0xFFFF),
+cmap subtables decode to the same map, the encoding vector is read back.
+Outside this statement (copied verbatim by `Subset`, hence in their domains iff the original's are):
+ScriptList, feature lists, lookup flags / mark filtering sets, GPOS value records, glyph outlines,
+charstrings and private dictionaries, glyph names (SIDs: distinct and 16-bit as in the original),
+hinting tables, `maxp`, `head`, `OS/2`, `name`, `post`; and the assembly of the tables into a file
+(C01 / C03). -/
+theorem C10_writable {f : Font} {glyphs : List Gid} {o : Order} {sub : Sub}
+    {vr : Nat → Otl.Gpos.VR × Otl.Gpos.VR} (D : Dom f glyphs vr)
+    (hp : ∀ k x, (o.rules k x).Perm x) (h : subset f glyphs o = .ok sub)
+    (henc : ∀ e, f.isCFF = true → f.encoding = some e → EncodedFirst e sub.order) :
+    WritableByCodecs vr sub := by
+  obtain ⟨s, r⟩ := subset_ok D.nodup hp h
+  have he := r.eq
+  have ho : sub.order = s.glyphs := by rw [he]; rfl
+  have hlenG : sub.glyphs.length = s.glyphs.length := by rw [he]; simp [assemble]
+  have hne : s.glyphs ≠ [] := by
+    obtain ⟨e, hx⟩ := r.ext
+    rw [hx]; simp only [St.init]
+    cases hg : glyphs with
+    | nil => exact absurd hg D.nonempty
+    | cons a t => simp
+  have hcount : s.glyphs.length ≤ 65536 :=
+    Nat.le_trans (nodup_length_le s.glyphs _ r.inv.nodup r.inRange) D.glyphCount
+  have hpos : 1 ≤ s.glyphs.length := by
+    cases hg : s.glyphs with
+    | nil => exact absurd hg hne
+    | cons a t => simp
+  refine ⟨by rw [hlenG]; exact ⟨hpos, hcount⟩, ?_, ?_, ?_, ?_⟩
+  · -- GSUB
+    intro l' hl' subs hsubs t ht
+    rcases r.gsub with ⟨_, h2⟩ | ⟨l, h1, _, h3⟩
+    · rw [h2] at hl'; cases hl'
+    · rw [h3] at hl'; injection hl' with hl'; subst hl'
+      have hfr : fontRules f = rulesOf l := by unfold fontRules; rw [h1]
+      have hok := subLookups_ok r.inv hne l.lookups (D.gsubWF l h1) (by
+        intro ru hrm; apply r.rules ru; rw [hfr]; simpa [rulesOf] using hrm) subs hsubs t ht
+      exact gsubDom_of_ok hcount hok
+  · -- GPOS
+    intro l' hl' subs hsubs ps hps
+    cases hg : f.gpos with
+    | none => rw [he] at hl'; simp [assemble, hg] at hl'
+    | some l =>
+      rw [he] at hl'
+      simp only [assemble, hg, Option.map_some, Option.some.injEq] at hl'
+      subst hl'
+      simp only [List.mem_map] at hsubs
+      obtain ⟨subs0, hs0, rfl⟩ := hsubs
+      obtain ⟨ps0, hp0, rfl⟩ := List.mem_map.1 hps
+      exact subPairs_dom r.inv hne hcount vr D.vrOk ps0 (D.gposSets l hg subs0 hs0 ps0 hp0)
+  · -- cmap
+    intro t' ht' kc hkc
+    cases hc : f.cmaps with
+    | none => rw [he] at ht'; simp [assemble, hc] at ht'
+    | some t =>
+      rw [he] at ht'
+      simp only [assemble, hc, Option.map_some, Option.some.injEq] at ht'
+      subst ht'
+      obtain ⟨kc0, hk0, rfl⟩ := List.mem_map.1 hkc
+      have hw := D.cmapWF t hc kc0 hk0
+      exact subCMap_dom r.inv hne hcount kc0.2 hw.1 hw.2
+  · -- CFF encoding
+    intro e' he'
+    cases hk : f.isCFF with
+    | false => rw [he] at he'; simp [assemble, hk] at he'
+    | true =>
+      cases hen : f.encoding with
+      | none => rw [he] at he'; simp [assemble, hk, hen] at he'
+      | some e =>
+        obtain ⟨e2, he2, hlen, hrange, hd⟩ :=
+          C10_encoding_downward D.nodup hp h hk e hen (henc e hk hen)
+        rw [he'] at he2; injection he2 with he2; subst he2
+        refine ⟨by rw [hlen]; exact D.encLen e hen, ?_, ?_⟩
+        · intro g hg
+          rcases hrange g hg with h1 | h1
+          · exact h1
+          · rw [h1, hlenG]; exact hpos
+        · intro g hg g' h0 hlt
+          exact hd g' g h0 (Nat.le_of_lt hlt) hg (by omega)
+
+/-- The C08 theorem applied to a rebuilt GSUB 1.2 subtable of a subset (how `WritableByCodecs` is
+used): it round-trips through the modelled encoder and reader, or is refused for its size. -/
+theorem C10_writable_gsub12_roundtrip {vr : Nat → Otl.Gpos.VR × Otl.Gpos.VR} {sub : Sub}
+    (W : WritableByCodecs vr sub) (l : Layout GsubOut) (hl : sub.gsub = some l)
+    (subs : List GsubOut) (hs : subs ∈ l.lookups) (m : List (Gid × Gid)) (hm : GsubOut.multi m ∈ subs) :
+    let rev := (sortKeys m).map (·.1)
+    let sb := (sortKeys m).map (·.2)
+    (6 + 2 * sb.length ≤ 0xFFFF →
+      ∃ b, Otl.Gsub.encode12 rev sb = .ok b ∧
+        Otl.Gsub.readSubtable 1 b = .ok (.s12 rev.zipIdx sb)) ∧
+    (6 + 2 * sb.length > 0xFFFF → ∃ msg, Otl.Gsub.encode12 rev sb = .panic msg) := by
+  have := W.gsub l hl subs hs _ hm
+  obtain ⟨hv, hlen, hsmall⟩ := this
+  intro rev sb
+  exact ⟨fun hfit => let ⟨b, h1, h2, _⟩ := Otl.Gsub.roundtrip12 rev sb hv hlen hsmall hfit; ⟨b, h1, h2⟩,
+    Otl.Gsub.refusal12 rev sb⟩
 
 /-! ### non-vacuity -/
 
@@ -570,6 +743,47 @@ example : ∃ sub, subset wFont [0, 1, 2] ⟨fun _ => id, [[4, 2, 1, 0], [4, 2, 
     sub.order = [0, 1, 2, 4] ∧
     sub.gsub.map (fun l => l.lookups) = some [[.ligs [(1, [([2], 3)])]]] :=
   ⟨_, rfl, rfl, rfl⟩
+
+/-- `Dom` is met by the witness font (no value records needed: `vr` constantly "no record"), so
+`C10_writable` applies to the run of `C10_nonvacuous`. -/
+theorem C10_writable_nonvacuous :
+    ∃ sub, subset wFont [0, 3] wOrder = .ok sub ∧ WritableByCodecs (fun _ => (none, none)) sub := by
+  obtain ⟨sub, hs, _⟩ := C10_nonvacuous
+  have D : Dom wFont [0, 3] (fun _ => (none, none)) := by
+    refine ⟨by decide, by decide, by decide, ?_, fun _ => ⟨trivial, trivial⟩, ?_, ?_, ?_⟩
+    · intro l hl subs hsubs t ht
+      have : l = ⟨[[0]], [[.ligs [(1, [([2], 4)])]]]⟩ := by
+        have : wFont.gsub = some l := hl
+        simp only [wFont, Option.some.injEq] at this; exact this.symm
+      subst this
+      simp only [List.mem_cons, List.mem_nil_iff, or_false] at hsubs
+      subst hsubs
+      simp only [List.mem_cons, List.mem_nil_iff, or_false] at ht
+      subst ht
+      simp [GsubSubWF]
+    · intro l hl subs hsubs ps hps x
+      have hle : (leftSet ps x).length ≤ ps.length := by
+        simp only [leftSet, List.length_map]; exact List.length_filter_le _ _
+      have : l = ⟨[[0]], [[[(1, 2, 50)]]]⟩ := by
+        have : wFont.gpos = some l := hl
+        simp only [wFont, Option.some.injEq] at this; exact this.symm
+      subst this
+      simp only [List.mem_cons, List.mem_nil_iff, or_false] at hsubs
+      subst hsubs
+      simp only [List.mem_cons, List.mem_nil_iff, or_false] at hps
+      subst hps
+      simp only [List.length_cons, List.length_nil] at hle; omega
+    · intro t ht kc hkc
+      have : t = [("3.1.0.4", [(65, 1), (66, 3), (64257, 4)])] := by
+        have : wFont.cmaps = some t := ht
+        simp only [wFont, Option.some.injEq] at this; exact this.symm
+      subst this
+      simp only [List.mem_cons, List.mem_nil_iff, or_false] at hkc
+      subst hkc
+      exact ⟨by decide, by decide⟩
+    · intro e he; simp [wFont] at he
+  refine ⟨sub, hs, C10_writable D (fun _ x => List.Perm.refl x) hs ?_⟩
+  intro e hk; simp [wFont] at hk
 
 /-- a simple CFF font whose encoding gives codes 65, 66 to glyphs 1, 2 (contiguous) -/
 def wCff : Font :=
